@@ -314,6 +314,20 @@ theorem restore_from_bytes_get (target new : Router) (order : List Name) (hnd : 
   · simp only [hm, if_false]
     exact hclear
 
+/-- with `order` = the keys `scan("")` of the decoded router lists (in any order, each once) — what the
+    code iterates over — every key that is not a cache key reads exactly as in the decoded router -/
+theorem restore_from_bytes_over_scan_get (target new : Router) (order : List Name) (hnd : order.Nodup)
+    (hscan : ∀ k, k ∈ order ↔ k ∈ new.scan []) (key : Name) (hk : classifyKey key ≠ .cache) :
+    (restoreFromBytes target new order).peek key = new.peek key := by
+  rw [restore_from_bytes_get target new order hnd key hk]
+  by_cases hm : key ∈ order
+  · simp [hm]
+  · simp only [hm, if_false]
+    cases hp : new.peek key with
+    | none => rfl
+    | some v =>
+      exact absurd ((hscan key).mpr (peek_some_mem_scan new key hk (by rw [hp]; rfl))) hm
+
 /-- composed with the v3 restore: below the tensor-train threshold `restore_from_bytes(snapshot_bytes())`
     gives every scanned non-cache key the value the saved store returns for it -/
 theorem restore_from_bytes_of_snapshot_get_exact (ttOk : List Nat → Bool) (ttRecon : List Nat → List Nat)
